@@ -254,6 +254,189 @@ def replay(case):
     return native(case)
 
 
+# ------------------------------------------------------------------------------------------------ any size (P)
+# SetType.contains / add / remove on a set of ANY size: `self.items` is a ghost strictly increasing sequence L of symbolic length whose
+# membership is an uninterpreted predicate.  The methods are interpreted from their source; what they build from L is kept structurally
+# and compared with the specification MODULO the contracts of the built-ins they use (the same assumptions as the bounded-size part):
+#     sorted(xs)              = the ascending permutation of xs by the elements' own `<`
+#     filter(p, L) / list()   = the subsequence of L, in order, of the elements satisfying p
+# so  add(x), x not in L  must return exactly  sorted(a permutation of [x] + L)  — strictly increasing with view L ∪ {x} because L is strictly
+# increasing and x is not in it;  remove(x), x in L  must return  filter(e != x, L)  (the predicate is evaluated on a GENERIC element and
+# proved equivalent to `e != x` for every e) — strictly increasing with view L \ {x};  the other two cases return L itself.
+KeyMem = z3.Function('in_view', z3.IntSort(), z3.BoolSort())
+
+
+class GSeq:
+    """ghost strictly increasing key sequence of symbolic length (the representation invariant of a well-formed set)"""
+    __pyvc_symbolic__ = True
+
+    def __init__(self, name='L'):
+        self.name = name
+        self.n = z3.Int(f'len_{name}')
+
+    def __repr__(self):
+        return f'<{self.name}>'
+
+    def __pyvc_isinstance__(self, cs):
+        return list in cs
+
+    def __pyvc_len__(self, eng):
+        eng.assume(self.n >= 0)
+        return Sym(self.n)
+
+    def __pyvc_contains__(self, eng, key):
+        if not isinstance(key, Obj) or 'value' not in key.f:
+            raise Unsupported('membership of a non-key')
+        return Sym(KeyMem(Z(key.f['value'])))
+
+    def __pyvc_binop__(self, eng, op, other, refl):
+        import ast
+        if isinstance(op, ast.Add) and isinstance(other, list):
+            return GBag(list(other), self)            # order of the concatenation is irrelevant below sorted()
+        return NotImplemented
+
+    def __pyvc_seqop__(self, eng, f, args, kwargs):
+        if f is len:
+            return self.__pyvc_len__(eng)
+        if f in (list, tuple) and len(args) == 1:
+            return self
+        if f is filter and len(args) == 2:
+            g = ikey(eng.int('generic_element'))
+            keep = eng.call(args[0], [g], {}) if args[0] is not None else g
+            return GFilter(self, Z(g.f['value']), ZB(keep))
+        if f is sorted and len(args) == 1 and not kwargs.get('key') and not kwargs.get('reverse'):
+            return GSorted(GBag([], self))
+        raise Unsupported(f'{getattr(f, "__name__", f)} of a ghost sequence with these arguments')
+
+
+class GBag:
+    """extra elements + a ghost sequence, in some order (only sorted() may consume it)"""
+    __pyvc_symbolic__ = True
+
+    def __init__(self, extra, base):
+        self.extra, self.base = extra, base
+
+    def __pyvc_binop__(self, eng, op, other, refl):
+        import ast
+        if isinstance(op, ast.Add) and isinstance(other, list):
+            return GBag(self.extra + list(other), self.base)
+        return NotImplemented
+
+    def __pyvc_seqop__(self, eng, f, args, kwargs):
+        if f is sorted and len(args) == 1 and not kwargs.get('key') and not kwargs.get('reverse'):
+            return GSorted(self)
+        if f in (list, tuple) and len(args) == 1:
+            return self
+        raise Unsupported(f'{getattr(f, "__name__", f)} of a concatenation with a ghost sequence')
+
+
+class GSorted:
+    __pyvc_symbolic__ = True
+
+    def __init__(self, bag):
+        self.bag = bag
+
+    def __pyvc_isinstance__(self, cs):
+        return list in cs
+
+    def __pyvc_seqop__(self, eng, f, args, kwargs):
+        if f in (list, tuple) and len(args) == 1:
+            return self
+        if f is sorted and len(args) == 1 and not kwargs.get('key') and not kwargs.get('reverse'):
+            return self
+        raise Unsupported('operation on a sorted ghost sequence')
+
+
+class GFilter:
+    __pyvc_symbolic__ = True
+
+    def __init__(self, base, var, keep):
+        self.base, self.var, self.keep = base, var, keep
+
+    def __pyvc_isinstance__(self, cs):
+        return list in cs
+
+    def __pyvc_seqop__(self, eng, f, args, kwargs):
+        if f in (list, tuple) and len(args) == 1:
+            return self
+        raise Unsupported('operation on a filtered ghost sequence')
+
+
+def h_set_any(op):
+    def h(e: Engine):
+        T = _T()
+        cls = T.SetType.create_type(args=[T.IntType])
+        s = Obj(cls)
+        L = GSeq()
+        s.f['items'] = L
+        x = e.int('x')
+        xo = ikey(x)
+        tag = f'SetType.{op}[any size]'
+        member = KeyMem(x.e)
+        try:
+            r = e.call(e.getattr_(s, op), [xo])
+        except RaiseEx as ex:
+            e.check(f'{tag}::safety.no_exception[{type(ex.exc).__name__}]', z3.BoolVal(False))
+            return
+        e.check(f'{tag}::frame.operand_unchanged', z3.BoolVal(s.f['items'] is L))
+        if op == 'contains':
+            e.check(f'{tag}::ensures.result==(x in view)', ZB(r) == member)
+            return
+        got = items_of(r)
+        e.check(f'{tag}::ensures.result_is_a_set_of_the_same_type', z3.BoolVal(isinstance(r, Obj) and r.cls is cls))
+        if op == 'add':
+            same = got is L or (isinstance(got, GSorted) and not got.bag.extra and got.bag.base is L)     # sorted(L) == L: L is strictly increasing
+            ins = isinstance(got, GSorted) and got.bag.base is L and len(got.bag.extra) == 1 and got.bag.extra[0] is xo
+            # x in view: the view must not change;  x not in view: exactly sorted([x] + L)
+            e.check(f'{tag}::ensures.view==view∪{{x}},strictly_increasing', z3.If(member, z3.BoolVal(bool(same)), z3.BoolVal(bool(ins))))
+        else:
+            same = got is L
+            if isinstance(got, GFilter) and got.base is L:
+                # for every element e of L:  kept  <=>  e != x      (then the result is L without x, in order)
+                rm = z3.substitute(got.keep, (got.var, z3.Int('any_element'))) == (z3.Int('any_element') != x.e)
+                # dropping x from a sequence that does not contain it is the identity as well
+                e.check(f'{tag}::ensures.view==view\\{{x}},strictly_increasing', rm)
+            else:
+                e.check(f'{tag}::ensures.view==view\\{{x}},strictly_increasing', z3.And(z3.Not(member), z3.BoolVal(bool(same))))
+    return h
+
+
+def _native_large(case):
+    from props import C14_R
+    if not isinstance(case, dict) or 'kind' not in case:
+        return False, 'symbolic sequence: no concrete collection in the counter-model'
+    return C14_R.replay_large(case)
+
+
+def _search_large():
+    """witness search on the real code: sets of growing size, operand at the start / middle / end, new and existing"""
+    from props import C14_R
+    for n in (1, 2, 3, 5, 8, 9, 16, 17, 33, 65, 129):
+        gaps, hits = C14_R._large_probes(n)
+        for probe, idxs in (('new', gaps), ('hit', hits)):
+            for idx in idxs:
+                if idx < 0 or (probe == 'hit' and idx >= n):
+                    continue
+                c = dict(kind='set', keytype='int', n=n, probe=probe, idx=idx, large=True)
+                try:
+                    if C14_R.replay_large(c)[0]:
+                        return c
+                except Exception:   # noqa
+                    continue
+    return None
+
+
+def run_P_any(ck):
+    from vlib.pyvc.report import run_harness
+    ck.assume('any-size set obligations: sorted() returns the ascending permutation by the elements\' own <, filter()/list() keep order (CPython); '
+              'the ghost sequence is strictly increasing (representation invariant, re-established by each obligation)')
+    for op in ('contains', 'add', 'remove'):
+        eng = Engine()
+        run_harness(ck, eng, h_set_any(op), f'set.{op}[any]')
+        report(ck, eng, [('SetType.', 'props.C14_R:replay_large', _native_large, _search_large)], kind='P')
+        functions_interpreted(ck, eng)
+
+
 def run_P(ck):
     T = _T()
     for f in (T.SetType.contains, T.SetType.add, T.SetType.remove, T.SetType.check_constraints, T.MapType.get, T.MapType.contains,
@@ -291,3 +474,4 @@ def run_P(ck):
             return native(c)
         report(ck, eng, [('', 'props.C14_P:replay', nat_, None)], kind='S')
         functions_interpreted(ck, eng)
+    run_P_any(ck)
